@@ -9,7 +9,8 @@ RULE = ("Hypothesis-generated histories (profile 'ordering': bursts from several
         "the manager wrote parses into whole frames with nothing left over after every round; msg_count is 1,2,3,... per connection "
         "over all frame kinds; per receiver the messages of one sender arrive in send order; any two receivers see their common "
         "messages in the same relative order (manager-originated messages with a payload - log records at debug/info level, notices - "
-        "included, identified by their bytes). Non-trivial = a connection that received >=3 frames of >=2 kinds, or two receivers "
+        "included, identified by their bytes). Plus long runs: one connection receives 66000 (thorough 140000) frames in each header "
+        "layout and msg_count must still count 1..n. Non-trivial = a connection that received >=3 frames of >=2 kinds, or two receivers "
         "sharing >=2 messages from >=2 senders; distinct = (kinds multiset class, count class) / (common count, sender count).")
 
 ORDERING = Profile(
@@ -51,12 +52,101 @@ def nontrivial(w, res):
             res.count("conns-nontrivial")
 
 
+# ---- long runs: sequence numbers far beyond the 8/15/16-bit boundaries on one connection ------------------------
+def long_run(cfg, n_frames, res=None):
+    """One subscriber connection receives n_frames frames of three kinds (messages of two publishers, acknowledgements of
+    its own repeated SUBSCRIBE requests, CLIENT_INFO of connecting modules); msg_count must be 1..n without a gap."""
+    import logging
+
+    from vlib import proto as P
+    from vlib.common import Violation
+    from vlib.simnet import LISTENER, Sim
+
+    tc = cfg["timecode"]
+    trace = {"kind": "long-run", "cfg": cfg, "frames": n_frames}
+    sim = Sim(timecode=tc, send_msg_timing=False, log_level=logging.CRITICAL + 10)
+    try:
+        def connect(mid):
+            c = sim.open()
+            c.send(P.build(P.MT_CONNECT_V2, P.CONNECT_V2.pack(0, 0, 0, mid, 1, P.cstr(b"m%d" % mid)), src_mod=mid, timecode=tc))
+            return c
+
+        def pump():
+            while True:
+                ready = ([LISTENER] if sim.listener.backlog else []) + [c for c in sim.conns if sim.readable(c)]
+                if not ready:
+                    return
+                sim.step(ready, list(sim.conns), 0.0)
+                if sim.dead:
+                    raise Violation("manager-died/" + type(sim.dead_exc).__name__, sim.dead.strip().splitlines()[-1], trace)
+
+        sub = connect(10)
+        pubs = [connect(11), connect(12)]
+        sub.send(P.build(P.MT_SUBSCRIBE, P.SUBSCRIBE.pack(1234), src_mod=10, timecode=tc))
+        sub.send(P.build(P.MT_SUBSCRIBE, P.SUBSCRIBE.pack(P.MT_CLIENT_INFO), src_mod=10, timecode=tc))
+        pump()
+        expected = 0
+        sent = 0
+        kinds = set()
+        while expected < n_frames:
+            for k in range(512):
+                pubs[k % 2].send(P.build(1234, P.tag_payload(sent, 8 if k % 7 else 0), src_mod=11 + k % 2, timecode=tc))
+                sent += 1
+                if k % 64 == 63:
+                    sub.send(P.build(P.MT_SUBSCRIBE, P.SUBSCRIBE.pack(1234), src_mod=10, timecode=tc))
+                    pump()
+            pump()
+            sub.rxbuf += sub.take()
+            for c in pubs:
+                c.take()
+            for fr in P.parse_stream(sub.rxbuf, tc):
+                expected += 1
+                kinds.add(fr.msg_type)
+                if fr.msg_count != expected:
+                    raise Violation("seqno/gap-or-repeat", f"frame #{expected} on a long-lived connection (type {fr.msg_type}) carries "
+                                    f"msg_count {fr.msg_count}", trace)
+        if sub.rxbuf:
+            raise Violation("framing/partial-frame", f"{len(sub.rxbuf)} bytes of an incomplete frame left after the manager finished", trace)
+        if res is not None:
+            res.count("long-run-frames", expected)
+            res.shape("long-run", tc, expected >> 15, len(kinds))
+            res.evaluations += 1
+    finally:
+        sim.close()
+
+
+def shard_long(cfg, n_frames):
+    from vlib.common import Result, Violation
+
+    res = Result()
+    try:
+        long_run(cfg, n_frames, res)
+    except Violation as v:
+        res.add_finding(v.key, v.what, v.trace)
+    return res
+
+
+def extra(ctx):
+    from vlib.common import run_shards
+
+    n = 66000 if ctx.quick else 140000
+    res = run_shards(shard_long, [({"timecode": tc}, n) for tc in (False, True)])
+    res.notes.append(f"long runs: one connection receives {n} frames (messages, acknowledgements) in both header layouts; msg_count must "
+                     "count 1..n across the 2^8, 2^15 and 2^16 (thorough: 2^17) boundaries")
+    return res
+
+
+def _replay_extra(tr):
+    long_run(tr["cfg"], tr["frames"])
+
+
 CHECK = SimCheck(
     "C05", [ORDERING, ORDERING, ORDERING_FAULTS],
     {"ordering": [{"timecode": False, "timing": True, "log": "error"}, {"timecode": True, "timing": True, "log": "info"},
                   {"timecode": False, "timing": False, "log": "silent"}, {"timecode": False, "timing": True, "log": "debug"}],
      "ordering-faults": [{"timecode": False, "timing": True, "log": "silent"}, {"timecode": True, "timing": False, "log": "silent"}]},
     RULE, ["per-sender order uses the harness' global publish counter, which increases in send order on each connection"],
-    quick=(700, 60), thorough=(15000, 160), nontrivial=nontrivial,
+    quick=(700, 60), thorough=(15000, 160), nontrivial=nontrivial, extra=extra,
 )
+CHECK.replay_extra = _replay_extra
 run, replay_trace, shard = CHECK.run, CHECK.replay_trace, CHECK.shard
